@@ -151,7 +151,9 @@ class AbstractPairing(metaclass=ABCMeta):
         """Process any disconnected events that are available."""
 
     def _callback_listeners(self, event):
-        for listener in self.listeners:
+        # Iterate over a snapshot: a listener may add or remove listeners
+        # (for example by calling its own stop callback) while being called.
+        for listener in list(self.listeners):
             try:
                 logger.debug("callback ev:%s", event)
                 listener(event)
